@@ -44,7 +44,7 @@ def enumerate_cases(tier):
     return cases
 
 
-LEAVES = ["paffine", "lu", "qr", "perm", "leakyrelu", "logtanh", "cdf", "c_affine", "ar_affine", "naive"]
+LEAVES = ["paffine", "lu", "qr", "perm", "leakyrelu", "logtanh", "cdf", "c_affine", "ar_affine", "naive", "compositecdf"]
 
 
 @st.composite
@@ -68,6 +68,11 @@ def _leaf(draw, D, ctxk):
         return {"t": "logtanh", "cut": 1.0}
     if t == "cdf":
         return {"t": draw(st.sampled_from(["cdf_rq", "cdf_quad", "cdf_lin"])), "bins": 3, "tails": "linear", "tb": 2.0}
+    if t == "compositecdf":
+        return {"t": "compositecdf", "squash": {"t": "sigmoid", "temp": draw(st.sampled_from([1.0, 0.7, 1.6])), "learn": draw(st.booleans())},
+                "cdf": {"t": draw(st.sampled_from(["cdf_rq", "cdf_quad", "cdf_lin"])), "bins": 3, "tails": None}}
+    if t == "logit":
+        return {"t": "logit", "temp": draw(st.sampled_from([1.0, 0.5, 2.0]))}
     if t == "c_affine" and D >= 2:
         return {"t": "c_affine", "mask": draw(zoo.mask_for(D)), "hidden": 4, "blocks": 1, "act": "tanh", "use_ctx": True}
     if t == "ar_affine":
@@ -84,7 +89,10 @@ def _tree(draw, D, ctxk, depth):
         n = draw(st.integers(2, 3))
         return {"t": "composite", "parts": [draw(_tree(D, ctxk, depth - 1)) for _ in range(n)]}
     if kind == "inverse":
-        return {"t": "inverse", "of": draw(_tree(D, ctxk, depth - 1))}
+        inner = draw(_tree(D, ctxk, depth - 1))
+        for _ in range(draw(st.sampled_from([1, 1, 2, 3, 4, 5]))):     # directly nested inverse wrappers, any parity
+            inner = {"t": "inverse", "of": inner}
+        return inner
     # multiscale over flat features: stage k sees the remaining features
     stages, cur, parts = draw(st.integers(1, 3)), D, []
     for k in range(stages):
@@ -116,8 +124,14 @@ def _flat_multiscale(tree):
     return True
 
 
+class _NonFinite(Exception):
+    pass
+
+
 def interp(b, spec, x, ctx, inverse):
     """Reference semantics from the docstrings, using only the leaves' public forward/inverse."""
+    if not bool(torch.isfinite(x).all()):
+        raise _NonFinite()       # an earlier stage overflowed (exp-type growth): what follows is undefined, not a composition question
     t = spec["t"]
     if t == "composite":
         tot = torch.zeros(x.shape[0], dtype=x.dtype)
@@ -128,6 +142,20 @@ def interp(b, spec, x, ctx, inverse):
         return x, tot
     if t == "inverse":
         return interp(b.parts[0], spec["of"], x, ctx, not inverse)
+    if t == "compositecdf":
+        # documented: squash -> cdf -> squash^-1, with the very objects handed to the constructor
+        sq, cdf = b.cdf_parts
+        if not inverse:
+            h, l1 = sq.module(x, ctx)
+            h, l2 = cdf.module(h, ctx)
+            if not bool(torch.isfinite(h).all()):
+                raise _NonFinite()
+            h, l3 = sq.module.inverse(h, ctx)
+        else:
+            h, l1 = sq.module(x, ctx)
+            h, l2 = cdf.module.inverse(h, ctx)
+            h, l3 = sq.module.inverse(h, ctx)
+        return h, l1 + l2 + l3
     if t == "multiscale":
         B = x.shape[0]
         tot = torch.zeros(B, dtype=x.dtype)
@@ -295,7 +323,7 @@ def run_case(case):
                 try:
                     ref, lref = interp(b, tree, x, ctx, inverse)
                 except Exception as e:
-                    if type(e).__name__ in ("InputOutsideDomain",):
+                    if type(e).__name__ in ("InputOutsideDomain", "_NonFinite"):
                         res.inconclusive += 1
                         continue
                     raise
@@ -318,13 +346,18 @@ def run_case(case):
                 return res
         # wrappers are stateless: the same call repeated on the same object (other calls in between) gives the same result
         same = lambda u, v: u.shape == v.shape and bool(torch.allclose(u, v, rtol=0, atol=0, equal_nan=True))  # noqa
+        if len(firsts) < 2:
+            return res        # a direction overflowed / left a domain on these inputs
         with torch.no_grad():
             try:
                 f1, i1 = b.module(x, ctx), b.module.inverse(x, ctx)
                 x2 = torch.randn(rows + 1, D, generator=g, dtype=torch.float64)
                 c2 = torch.randn(rows + 1, ctxk, generator=g, dtype=torch.float64) if ctxk else None
-                b.module.inverse(x2, c2)
-                b.module(x2, c2)
+                for call in (b.module.inverse, b.module):     # other calls in between; their results are not judged
+                    try:
+                        call(x2, c2)
+                    except Exception:
+                        pass
                 f2, i2 = b.module(x, ctx), b.module.inverse(x, ctx)
                 f0, i0 = firsts.get(False, f1), firsts.get(True, i1)      # the very first calls on this object (checked above)
                 if not (same(f0[0], f1[0]) and same(f0[1], f1[1]) and same(f1[0], f2[0]) and same(f1[1], f2[1])):
@@ -338,7 +371,7 @@ def run_case(case):
                 if type(e).__name__ != "InputOutsideDomain":
                     raise
         # InverseTransform swaps the two directions exactly (bitwise)
-        if tree["t"] == "inverse":
+        if tree["t"] == "inverse" and len(firsts) == 2:
             inner = b.parts[0].module
             with torch.no_grad():
                 a1, l1 = b.module(x, ctx)
